@@ -565,3 +565,30 @@ func nestBombGen(code uint32, d int) []byte {
 	copy(b, refcodec.EncodeHeader(refcodec.Header{Version: 1, Length: uint32(len(b)), Flags: 0x80, Code: 8388000, HopByHop: 1, EndToEnd: 1}))
 	return b
 }
+
+// FuzzC03: coverage-guided native fuzzing of the decoders and inspections,
+// seeded with valid messages of every dictionary context (thorough tier:
+// `go test -fuzz FuzzC03 -fuzztime=<N>x`). A violation is a test failure; the
+// engine writes the failing input to testdata/fuzz/FuzzC03/.
+func FuzzC03(f *testing.F) {
+	ctxs := contexts(f)
+	seedRec := ev.Open(&testing.T{}, "C03")
+	for i := 0; i < 60; i++ {
+		c := seedRec.OneCase("fuzz-seed", i)
+		_, w := seedMessage(c, ctxs[i%len(ctxs)])
+		f.Add(w, uint8(i%len(ctxs)))
+	}
+	f.Add(nestBomb(260, 100), uint8(0))
+	f.Add(refcodec.EncodeHeader(refcodec.Header{Version: 1, Length: 0xFFFFFF, Flags: 0x80, Code: 257}), uint8(0))
+	f.Fuzz(func(t *testing.T, in []byte, k uint8) {
+		if len(in) > 1<<16 {
+			return
+		}
+		r := ev.Open(t, "C03")
+		c := r.OneCase("fuzz", 0)
+		offer(c, ctxs[int(k)%len(ctxs)], in, "fuzz")
+		if c.Failed() {
+			t.FailNow()
+		}
+	})
+}
